@@ -19,6 +19,12 @@ RULE = ('corpus; structured random (array, label-map) pairs of 1-3 D: labeled_su
         'fullhistogram on all 11 dtypes (signed and float must be refused), is_same_labeling on unequal shapes (same pixels '
         'reshaped, transposed extents, one map shorter/longer), remove_regions_where (tables shorter/longer than the label '
         'range, bool and int tables), labeled.perimeter (2-D blobs, strokes, isolated pixels; n=4/8; 6 modes; 7 layouts). '
+        'Size-threshold stream (quick: 5 per run, thorough: 30; center_of_mass sums exceed 2^24 through the values): element counts, per-label '
+        'pixel counts, label values and numbers of labels crossing 2^8 / 2^15 / 2^16 (+-1) for labeled_size, fullhistogram, '
+        'labeled_sum/max/min (judged by the Lean driver) and for relabel, is_same_labeling, remove_regions, bbox, labeled.bbox, '
+        'center_of_mass (their Lean models are quadratic: the large cases are judged by an exact O(N) Python oracle, which is '
+        'compared with the Lean specification on every small case of these six kinds in every run). '
+
         'Non-trivial = the label map has at least two distinct values; distinct = distinct protocol line + layout.')
 ASSUMPTIONS = ['no NaN data (an order is taken by labeled_max/min)',
                'labeled_sum is compared with the exact sum only when that sum is representable in the array dtype '
@@ -71,6 +77,8 @@ def _bools(s):
 
 def _line(c):
     fn = c['fn']
+    if c.get('big'):        # judged by the Python oracle: the driver is not asked (its models of these kinds are quadratic)
+        return 'c13 kind=histok dt=u8'
     sh = f"shape={gen.enc_shape(c['shape'])}"
     if fn == 'fold':
         ml = c.get('minlength')
@@ -397,6 +405,143 @@ def _run(c, drv):
     raise ValueError(fn)
 
 
+# ---------------------------------------------------------------------------------------------- size-threshold stream
+# Cases whose element count / per-label pixel count / number of labels crosses 2^8, 2^15, 2^16: a counter, index or
+# accumulator narrowed to 16 bits (or to float) passes every small case. labeled_size / fullhistogram / labeled_sum are
+# judged by the Lean driver as usual (those models are linear). The models of relabel, is_same_labeling, remove_regions,
+# bbox, labeled.bbox and center_of_mass index lists / association lists (quadratic), so their large cases (`big`) are
+# judged by the exact O(N) Python oracle below — and on EVERY small case of these six kinds the oracle is compared with
+# the Lean specification the driver prints (a disagreement is an infrastructure error, not a finding).
+
+ORACLE_FNS = ('relabel', 'same', 'remove', 'bbox', 'bboxl', 'com')
+
+
+def _oracle(c):
+    fn, shape = c['fn'], c['shape']
+    if fn == 'relabel':
+        m, out = {0: 0}, []
+        for v in c['labels']:
+            if v not in m:
+                m[v] = len(m)
+            out.append(m[v])
+        return out + [len(m) - 1]
+    if fn == 'same':
+        if list(c.get('shape2', shape)) != list(shape):
+            return [False]
+        f, g = {0: 0}, {0: 0}
+        for a, b in zip(c['labels'], c['labels2']):
+            if f.setdefault(a, b) != b or g.setdefault(b, a) != a:
+                return [False]
+        return [True]
+    if fn == 'remove':
+        rs = set(c['regions'])
+        return [0 if v in rs else v for v in c['labels']]
+    if fn == 'bbox':
+        B = np.array(c['bits'], dtype=np.uint8).reshape(shape)
+        nz = np.nonzero(B)
+        if B.size == 0 or len(nz[0]) == 0:
+            return None
+        out = []
+        for ax in nz:
+            out += [int(ax.min()), int(ax.max()) + 1]
+        return out
+    if fn == 'bboxl':
+        L = np.array(c['labels'], dtype=np.int64).reshape(shape)
+        n, nd, flat = int(L.max()) + 1, L.ndim, L.ravel()
+        rows = np.zeros((n, 2 * nd), np.int64)
+        idx = np.indices(shape)
+        for j in range(nd):
+            cj = idx[j].ravel()
+            lo, hi = np.full(n, shape[j], np.int64), np.zeros(n, np.int64)
+            np.minimum.at(lo, flat, cj)
+            np.maximum.at(hi, flat, cj + 1)
+            rows[:, 2 * j], rows[:, 2 * j + 1] = lo, hi
+        rows[np.bincount(flat, minlength=n) == 0] = 0
+        return [int(x) for x in rows.ravel().tolist()]
+    if fn == 'com':
+        K = np.array(c['data'], dtype=np.int64).reshape(shape)
+        L = (np.zeros(shape, np.int64) if c['labels'] is None else np.array(c['labels'], dtype=np.int64).reshape(shape))
+        n, nd, flat = int(L.max()) + 1 if L.size else 1, K.ndim, L.ravel()
+        den = np.zeros(n, np.int64)
+        np.add.at(den, flat, K.ravel())
+        idx = np.indices(shape)
+        out = [[None] * nd for _ in range(n)]
+        for j in range(nd):
+            num = np.zeros(n, np.int64)
+            np.add.at(num, flat, K.ravel() * idx[j].ravel())
+            for l in range(n):
+                out[l][j] = (int(num[l]), int(den[l]))
+        return [x for row in out for x in row]
+    raise ValueError(fn)
+
+
+def _com_bits(pairs):
+    """correctly rounded quotient of exact integers (Python's int / int), as a bit pattern; None where the total is 0"""
+    return [None if d == 0 else core.f2bits(nm / d) for nm, d in pairs]
+
+
+def _check_oracle(c, drv):
+    """small case of an oracle kind: the Python oracle must agree with the Lean specification"""
+    fn, o = c['fn'], _oracle(c)
+    if fn == 'relabel':
+        spec = core.ints(drv['spec']) + [int(drv['nspec'])]
+    elif fn == 'same':
+        spec = _bools(drv['spec'])
+    elif fn == 'remove':
+        spec = core.ints(drv['spec'])
+    elif fn == 'bbox':
+        spec = None if drv['spec'] == 'none' else core.ints(drv['spec'])
+    elif fn == 'bboxl':
+        spec = core.ints(drv['spec'])
+    else:
+        ok, sp = _bools(drv['ok']), core.ints(drv['spec'])
+        spec = [b if k else None for b, k in zip(sp, ok)]
+        o = _com_bits(o)
+    if o != spec:
+        raise core.Infra(f'C13: the Python oracle of the size-threshold stream disagrees with the Lean specification on {c}')
+
+
+def _run_big(c):
+    """large case of an oracle kind: the real code against the exact Python oracle (property findings, same keys)"""
+    import mahotas as mh
+    import mahotas.labeled as ml
+    fn, shape, lay = c['fn'], c['shape'], c.get('layout', 'C')
+    want = _oracle(c)
+    if fn == 'relabel':
+        r, n = ml.relabel(np.array(c['labels'], dtype=np.intc).reshape(shape))
+        got, key = [int(x) for x in _flat(r)] + [int(n)], 'relabel'
+    elif fn == 'same':
+        a = np.array(c['labels'], dtype=c.get('ldtype', 'int32')).reshape(shape)
+        b = np.array(c['labels2'], dtype=c.get('ldtype2', 'int32')).reshape(c.get('shape2', shape))
+        got, key = [bool(ml.is_same_labeling(a, b))], 'is_same_labeling'
+    elif fn == 'remove':
+        r = ml.remove_regions(np.array(c['labels'], dtype=np.intc).reshape(shape), c['regions'])
+        got, key = [int(x) for x in _flat(r)], 'remove_regions'
+    elif fn == 'bbox':
+        A = gen.relayout(_arr(c['data'], c['dtype'], shape), lay)
+        fast = A.ndim == 2 and A.flags.c_contiguous and A.flags.aligned
+        got, key = [int(x) for x in mh.bbox(A).tolist()], 'bbox:' + ('fast' if fast else 'generic')
+        if want is None:
+            return []
+    elif fn == 'bboxl':
+        L = gen.relayout(np.array(c['labels'], dtype=c['ldtype']).reshape(shape), lay)
+        got, key = [int(x) for x in ml.bbox(L).ravel().tolist()], 'labeled.bbox'
+    else:
+        A = gen.relayout(_arr(c['data'], c['dtype'], shape), lay)
+        L = None if c['labels'] is None else np.array(c['labels'], dtype=c['ldtype']).reshape(shape)
+        r = mh.center_of_mass(A, L)
+        key = 'center_of_mass:' + ('whole' if L is None else 'labels')
+        want = _com_bits(want)
+        got = [core.f2bits(x) for x in r.ravel().tolist()]
+        if len(got) == len(want):
+            got = [g if w is not None else None for g, w in zip(got, want)]
+    if got != want:
+        bad = [i for i, (g, w) in enumerate(zip(got, want)) if g != w][:8]
+        return [dict(kind='property', key=key, detail=dict(why='size-threshold case', entries=bad, n=len(want),
+                                                            got=[got[i] for i in bad], spec=[want[i] for i in bad]))]
+    return []
+
+
 def _prep(c):
     """derive the protocol-only fields"""
     c = dict(c)
@@ -423,13 +568,20 @@ def evaluate(cases):
     for c, line, drv in zip(pcs, lines, drvs):
         if 'error' in drv:
             raise core.Infra(f'driver: {drv} for {line}')
-        f = _run(c, drv)
+        if c.get('big'):
+            f = _run_big(c)
+        else:
+            if c['fn'] in ORACLE_FNS and 'spec' in drv:
+                _check_oracle(c, drv)
+            f = _run(c, drv)
         lab = c.get('labels') or c.get('data') or []
-        res.append(dict(findings=f, nontrivial=len(set(lab)) >= 2, sig=line + c.get('layout', 'C'),
+        res.append(dict(findings=f, nontrivial=len(set(lab)) >= 2,
+                        sig=line + c.get('layout', 'C') + str(c.get('thr', '')),
                         tags=dict(fn=c['fn'] + (':' + c['op'] if c['fn'] == 'fold' else ''),
                                   dtype=c.get('dtype', c.get('ldtype', 'int32')), ndim=len(c['shape']),
                                   layout=c.get('layout', 'C'),
-                                  **({'mode': c['mode']} if 'mode' in c else {}))))
+                                  **({'mode': c['mode']} if 'mode' in c else {}),
+                                  **({'size': 'threshold'} if 'thr' in c else {}))))
     return res
 
 
@@ -775,6 +927,122 @@ def _gen_bwperim(rng):
                 mode=rng.choice(MODES + ['constant']), layout=rng.choice(gen.LAYOUTS))
 
 
+THR_N = [257, 32769, 65535, 65536, 65537, 65537]
+THR_V = [255, 256, 257, 32767, 32768, 65535, 65536, 65537]
+
+
+def _thr_shape(rng, N=None):
+    N = N or rng.choice(THR_N)
+    if N == 65537 and rng.random() < 0.3:
+        return [257, 256]          # 65792 elements
+    return [1, N] if rng.random() < 0.7 else [N]
+
+
+def _thr_counts(rng, fn):
+    """labeled_size / fullhistogram: one value covering more than 2^16 pixels, or values around the thresholds"""
+    shape = _thr_shape(rng)
+    n = int(np.prod(shape))
+    if rng.random() < 0.5:
+        data = [1] * n
+        data[rng.randrange(n)] = 0
+        dtype = rng.choice(['int32', 'uint32', 'int64', 'uint8'] if fn == 'size' else ['uint32', 'uint64', 'uint8', 'uint16'])
+    else:
+        v = rng.choice(THR_V)
+        data = [rng.choice([0, v, v, v - 1, 3]) for _ in range(rng.choice([7, 300]))]
+        shape = [len(data)]
+        dtype = rng.choice(['int32', 'uint32', 'int64'] if fn == 'size' else ['uint32', 'uint64'])
+    return dict(fn=fn, dtype=dtype, shape=shape, data=data, thr=1)
+
+
+def _thr_fold(rng):
+    shape = _thr_shape(rng)
+    n = int(np.prod(shape))
+    dtype = rng.choice(['int32', 'int64', 'uint16', 'float32', 'float64', 'uint8'])
+    unit = 8 if dtype in FLOATS else 1            # floats: k/8, so 8 is the value 1.0 (every partial sum exact: < 2^24)
+    data = [unit] * n
+    labels = [1] * n
+    for _ in range(3):
+        labels[rng.randrange(n)] = 0
+    if dtype not in ('uint16', 'uint8') and rng.random() < 0.5:
+        data = [unit * rng.choice([1, 1, 2, -1]) for _ in range(n)]
+    return dict(fn='fold', op=rng.choice(['sum', 'sum', 'max', 'min']), dtype=dtype, shape=shape, data=data, labels=labels,
+                ldtype='int32', layout='C', llayout='C', thr=1)
+
+
+def _thr_bbox(rng):
+    shape = _thr_shape(rng)
+    n = int(np.prod(shape))
+    data = [0] * n
+    data[n - 1] = 1
+    data[rng.randrange(n)] = 1
+    return dict(fn='bbox', dtype=rng.choice(['uint8', 'bool', 'int32', 'float64']), shape=shape, data=data,
+                layout=rng.choice(['C', 'C', 'F', 'strided']), big=n > 300, thr=1)
+
+
+def _thr_bboxl(rng):
+    shape = _thr_shape(rng)
+    n = int(np.prod(shape))
+    labels = [1] * n
+    labels[0], labels[n - 1] = 0, 2
+    return dict(fn='bboxl', ldtype=rng.choice(['int32', 'int64', 'uint16']), shape=shape, labels=labels,
+                layout=rng.choice(['C', 'F']), big=n > 300, thr=1)
+
+
+def _thr_com(rng):
+    """more than 2^16 pixels; the value and value*coordinate sums exceed 2^24 by far (a float accumulator is inexact there)
+    while staying exact in double (< 2^53): the witness for a narrowed accumulator needs no 2^24-pixel image"""
+    shape = _thr_shape(rng)
+    n = int(np.prod(shape))
+    dtype = rng.choice(['uint8', 'int32', 'uint16', 'float32', 'float64', 'bool'])
+    unit = 8 if dtype in FLOATS else 1
+    if dtype in ('int32', 'uint16'):
+        data = [rng.choice([1, 32767, 30001, 2]) for _ in range(n)]
+    else:
+        data = [unit * (1 if dtype == 'bool' else rng.choice([1, 1, 2, 3])) for _ in range(n)]
+    labels = None
+    if rng.random() < 0.5:
+        labels = [1] * n
+        labels[0] = 0
+        labels[n // 2] = 2
+    return dict(fn='com', dtype=dtype, shape=shape, data=data, labels=labels, ldtype='int32', layout='C', llayout='C',
+                big=n > 300, thr=1)
+
+
+def _thr_relabel(rng):
+    N = rng.choice(THR_N)
+    labels = list(range(N, 0, -1))              # N distinct labels: more than 2^16 of them for N >= 65536
+    if rng.random() < 0.5:
+        labels[rng.randrange(N)] = 0
+    return dict(fn='relabel', shape=[N], labels=labels, inplace=False, big=N > 300, thr=1)
+
+
+def _thr_same(rng):
+    N = rng.choice(THR_N)
+    a = list(range(1, N + 1))
+    b = [v + 7 for v in a]
+    if rng.random() < 0.5:
+        b[N - 1] = b[0]                          # the last label collides with the first: only the full map tells
+    return dict(fn='same', shape=[N], shape2=[N], labels=a, labels2=b, ldtype='int32', ldtype2='int32', big=N > 300, thr=1)
+
+
+def _thr_remove(rng):
+    N = rng.choice(THR_N)
+    labels = list(range(1, N + 1))
+    rng.shuffle(labels)
+    regions = [v for v in range(1, N + 1) if v % 2 == 0 or v > N - 2]
+    return dict(fn='remove', shape=[N], labels=labels, regions=regions, inplace=False, big=N > 300, thr=1)
+
+
+THR_POOL = [lambda r: _thr_counts(r, 'size'), lambda r: _thr_counts(r, 'hist'), _thr_fold, _thr_fold, _thr_bbox, _thr_bboxl,
+            _thr_com, _thr_relabel, _thr_same, _thr_remove]
+
+
+def _threshold_cases(rng, tier):
+    if tier == 'quick':
+        return [g(rng) for g in rng.sample(THR_POOL, 5)]
+    return [g(rng) for g in THR_POOL for _ in range(3)]
+
+
 GENS = [(_gen_fold, 5), (_gen_hist, 1.3), (_gen_bbox, 2), (_gen_bboxl, 1), (_gen_com, 2), (_gen_relabel, 1),
         (_gen_same, 1.5), (_gen_remove, 1), (_gen_rmborder, 1), (_gen_filter, 1), (_gen_borders, 3), (_gen_bwperim, 1),
         (_gen_bboxb, 1.2), (_gen_perimeter, 1.2), (_gen_rmwhere, 0.8)]
@@ -788,6 +1056,8 @@ def cases(rng, tier):
     for _ in range(nrand):
         g = rng.choices(gens, w)[0]
         out.append(g(rng))
+    if tier != 'search':
+        out += _threshold_cases(rng, tier)
     return out
 
 
